@@ -970,7 +970,7 @@ def enum_pools(variant, tier, collapse_dims):
                       [[1, 0, 1, a], [1, 0, 1, b], [0, 1, 1, b], [1, 0, 1, {'time': T1, 'elevation': '700'}]],
                       [[999, 1000, 10, a], [999, 1000, 10, b], [1000, 999, 10, a], [999, 1000, 11, b]]]
     elif fam.startswith('compact'):
-        pools_ = [[[127, 127, 8, None], [128, 127, 8, None], [127, 126, 8, None], [126, 127, 8, None]],
+        pools_ = [[[127, 127, 8, None], [128, 127, 8, None], [127, 255, 8, None], [126, 127, 8, None]],
                   [[127, 127, 8, None], [127, 128, 8, None], [255, 255, 8, None], [127, 127, 9, None]],
                   [[0, 0, 0, None], [0, 0, 1, None], [1, 0, 1, None], [0, 1, 1, None]]]
     elif fam.startswith('file'):
